@@ -202,7 +202,7 @@ var readerFns = []string{
 	"bitmap.Rank64", "bitmap.Rank128", "bitmap.Select32", "bitmap.Select32R64", "bitmap.NextOne", "bitmap.PrevOne",
 	"bitmap.Slice", "bitmap.ToArray", "bitmap.Get", "bitmap.Get1", "bitmap.Getw", "bitmap.SafeGet", "bitmap.FromStr32",
 	"bitmap.IndexRank64", "bitmap.IndexRank128", "bitmap.IndexSelect32", "bitmap.IndexSelect32R64", "bitmap.Join", "bitmap.Of",
-	"bitmap.OfMany", "bitmap.TailGet", "bitmap.Fmt", "bitmap.OfUnsorted",
+	"bitmap.OfMany", "bitmap.TailGet", "bitmap.Fmt", "bitmap.OfUnsorted", "bitmap.Select32OutOfRange",
 	"bmtree.PathToIndex", "bmtree.PathToIndexLoose", "bmtree.IndexToPath", "bmtree.AllPaths", "bmtree.Decode",
 	"bmtree.PathOf", "bmtree.PathsOf", "bmtree.PathLen", "bmtree.PathStr",
 	"bitstr.New", "bitstr.Len", "bitstr.Cmp", "bitstr.CmpUpto", "bitstr.StrCmpUpto",
@@ -214,6 +214,16 @@ var readerFns = []string{
 var hugeFns = []string{"sigbits.HugeFirstDiffBits", "sigbits.HugeShardByPrefix", "sigbits.HugeNew"}
 
 var fmtUsing = map[string]bool{"bmtree.PathStr": true, "bitmap.Fmt": true}
+
+// refusing marks operations whose DOCUMENTED outcome is a panic (Select32 with
+// an i its select index does not cover). A refusal is an outcome like any
+// other: it must depend only on the arguments, the value recovered must stay
+// what it was, and two tasks being refused at once must not touch common
+// memory. The library builds its message with fmt, so in the R build these
+// operations stay out of the wide "cold" runs (fmt's pool would add
+// happens-before edges between the tasks of exactly the runs that look for a
+// racy first use).
+var refusing = map[string]bool{"bitmap.Select32OutOfRange": true}
 
 // execOp performs one catalogue operation on the shared world. It never
 // touches harness state shared between tasks and uses neither fmt nor any
@@ -316,6 +326,20 @@ func execBitmap(w *world, op ROp, viaValue bool) (out rOutcome) {
 			return
 		}
 		i := int32(mod(op.A, int64(b.ones)))
+		var a1, a2 int32
+		if viaValue {
+			a1, a2 = fvSelect32(b.words, b.s32, i)
+		} else {
+			a1, a2 = bitmap.Select32(b.words, b.s32, i)
+		}
+		out.ints = []int64{int64(a1), int64(a2)}
+	case "bitmap.Select32OutOfRange":
+		// i < 0, or i beyond what the select index covers: Select32 refuses with
+		// a panic (pinned by the library's own TestSelect32_panic)
+		i := int32(32*len(b.s32)) + int32(mod(op.A, 4096))
+		if op.B&1 == 1 {
+			i = -1 - int32(mod(op.A, 4096))
+		}
 		var a1, a2 int32
 		if viaValue {
 			a1, a2 = fvSelect32(b.words, b.s32, i)
@@ -658,7 +682,7 @@ func genReaders(seed uint64, allowFmt bool, cold bool, deepTier bool) *ReadersPl
 		// wide and long: every function is likely to be FIRST used concurrently
 		nt = 3 + r.Intn(2)
 		for _, f := range readerFns {
-			if !fmtUsing[f] || allowFmt {
+			if (!fmtUsing[f] && !refusing[f]) || allowFmt {
 				focus = append(focus, f)
 			}
 		}
